@@ -215,6 +215,31 @@ Theorem tv_reset_spins :
   enabled glob loc tstep spin_state 1 0.
 Proof. exact reset_spins. Qed.
 
+(* existence form of termination, for programs WITHOUT reset() only (the open known finding "activate lost to reset"
+   and the reset() spin are outside these two theorems by hypothesis).
+   (a) from every reachable state of a reset-free program there is a schedule of at most mu(s) steps, none of them a
+       spurious wake-up (time-outs allowed), that ends in a state where nothing can move - whose shape is tv_deadlock_shape *)
+Theorem tv_eventually_settles : forall a0 progs s, RP a0 progs s ->
+  exists sc, sched_ok no_spurious sc /\ length sc <= mu s /\ quiescent glob loc tstep (run glob loc tstep s sc).
+Proof. exact eventually_settles. Qed.
+
+(* (b) ... and in that state every thread has finished - every wait has returned - when the programs have a driver d
+   ([wf_finish a0 progs d], decidable): d is the only thread that calls activate(), nobody calls reset(), d itself never
+   calls the untimed wait() / waitActivation(), and the sequential effect of d's program on (activated, triggered),
+   started from (a0, false), is (true, true): d activates (or the variable is constructed active) and calls trigger()
+   after its last effective activation.  All other threads may wait, wait_for, waitActivation, wait_forActivation,
+   trigger, isTriggered, isActive in any number and order. *)
+Theorem tv_eventually_finishes : forall a0 progs d s,
+  wf_finish a0 progs d = true -> R a0 progs s ->
+  exists sc, sched_ok no_spurious sc /\ length sc <= mu s /\ all_fin glob loc fin (run glob loc tstep s sc) = true.
+Proof. exact eventually_finishes. Qed.
+
+(* the quiescent states of such programs: both flags true, everybody finished *)
+Theorem tv_driver_quiescent_finished : forall a0 progs d s,
+  wf_finish a0 progs d = true -> R a0 progs s -> quiescent glob loc tstep s ->
+  activated (gl s) = true /\ triggered (gl s) = true /\ all_fin glob loc fin s = true.
+Proof. exact driver_quiescent_finished. Qed.
+
 (* ------------------------------------------------------------------ non-vacuity *)
 Notation runT := (run glob loc tstep).
 
@@ -297,3 +322,23 @@ Qed.
 (* a reset-free program in the middle of its run: the hypotheses of tv_bounded_work_partial *)
 Example ex_bounded_work : RP false ex_progs ex_state /\ mu ex_state = 1.
 Proof. split; [split; [reflexivity|exists ex_sched; reflexivity]|vm_compute; reflexivity]. Qed.
+
+(* wf_finish: a non-trivial program set satisfies it; it is false when the driver triggers before it activates, when
+   a second thread activates too, when the driver itself blocks in an untimed wait, when somebody resets *)
+Definition fin_progs : list (list op) :=
+  [[Wait; WaitActivation; Wait; IsTriggered];
+   [IsActive; Trigger; Activate; WaitFor; Activate; Trigger; WaitForActivation];
+   [WaitActivation; Trigger; WaitFor; Wait]].
+Example ex_wf_finish :
+  wf_finish false fin_progs 1 = true /\
+  wf_finish false [[Trigger; Activate]; [Wait]] 0 = false /\
+  wf_finish true [[Trigger]; [Wait]] 0 = true /\
+  wf_finish false [[Activate; Trigger]; [Activate; Wait]] 0 = false /\
+  wf_finish false [[Activate; Wait; Trigger]; [Wait]] 0 = false /\
+  wf_finish false [[Activate; Trigger]; [Wait; Reset]] 0 = false.
+Proof. vm_compute. repeat split. Qed.
+(* the violating program [[trigger; activate]; [wait]] really can hang: trigger() is refused, activate() arms, the waiter sleeps *)
+Example ex_wf_finish_needed :
+  let s := runT (init false [[Trigger; Activate]; [Wait]]) (repeat (0, 0) 11 ++ repeat (1, 0) 6) in
+  quiescent glob loc tstep s /\ all_fin glob loc fin s = false.
+Proof. cbn zeta. split; [apply qcheck_quiescent; vm_compute; reflexivity|vm_compute; reflexivity]. Qed.
